@@ -554,7 +554,14 @@ func (c *fctx) binary(x *ast.BinaryExpr) string {
 	case token.QUO, token.REM:
 		dv := c.info.Types[x.Y]
 		if dv.Value == nil || constant.Sign(dv.Value) == 0 {
-			c.fail(x, "division by a non-constant")
+			if k != types.Int {
+				c.fail(x, "division of %s by a non-constant", rt)
+			}
+			fn := "Go.idiv"
+			if x.Op == token.REM {
+				fn = "Go.imod"
+			}
+			return c.bindM("", fn+" "+l+" "+r)
 		}
 		if k == types.Int {
 			// Go truncates toward zero
